@@ -39,7 +39,7 @@ def scenario(r, kind):
         qa = {'kind': ('select', [('expr', ('like', ('fld', 'a', 0), ('lit', r.choice(['a%', '_', '%k'])))), ('expr', ('like', ('fld', 'a', 1), ('lit', '_')))]), 'where': None, 'join': None}
     elif kind == 'unnest':
         qa = {'kind': ('select', [('expr', ('fld', 'a', 0)), ('unnest', ('list', [('fld', 'a', 1), ('lit', 'u')]), 'UNNEST')]), 'where': None, 'join': None, 'top': 3}
-    elif kind == 'named':
+    elif kind in ('named', 'named_dc'):
         # column-name variables: the same query TEXT over tables whose headers are ordered differently
         hdr = r.choice([['name', 'score'], ['score', 'name']])
         i_name, i_score = hdr.index('name'), hdr.index('score')
@@ -48,7 +48,11 @@ def scenario(r, kind):
             row[i_name] = r.choice(['a', 'b', 'k'])
             row[i_score] = str(r.randint(1, 9))
         qa = {'kind': ('select', [('expr', ('fld', 'a', i_name)), ('expr', ('fld', 'a', i_score))]), 'where': ('ne', ('fld', 'a', i_score), ('lit', '5')), 'join': None}
-        return {'q': 'select a.name, a.score where a.score != "5"', 'qa': qa, 'A': A, 'B': None, 'kind': kind, 'hdrA': hdr}
+        if kind == 'named_dc':
+            # the same select list under DISTINCT COUNT: its header has one more (unnamed) column - and only ITS header
+            qa = {'kind': ('select', [('expr', ('fld', 'a', i_name)), ('expr', ('fld', 'a', i_score))]), 'where': None, 'join': None, 'distinct': 2}
+            return {'q': 'select distinct count a.name, a.score', 'qa': qa, 'A': A, 'B': None, 'kind': kind, 'hdrA': hdr, 'exp_header': ['col1', 'name', 'score']}
+        return {'q': 'select a.name, a.score where a.score != "5"', 'qa': qa, 'A': A, 'B': None, 'kind': kind, 'hdrA': hdr, 'exp_header': ['name', 'score']}
     elif kind == 'runtime_error':
         qa = {'kind': ('select', [('expr', ('int', ('fld', 'a', 0)))]), 'where': None, 'join': None}
     elif kind == 'parse_error':
@@ -59,7 +63,7 @@ def scenario(r, kind):
     return {'q': c['q'], 'qa': qa, 'A': A, 'B': B, 'kind': kind}
 
 
-KINDS = ['select', 'aggregate', 'avg_native', 'avg_string', 'distinct_order', 'join', 'update', 'like', 'unnest', 'named', 'named', 'runtime_error', 'parse_error']
+KINDS = ['select', 'aggregate', 'avg_native', 'avg_string', 'named_dc', 'named_dc', 'distinct_order', 'join', 'update', 'like', 'unnest', 'named', 'named', 'runtime_error', 'parse_error']
 
 
 def solo(queries):
@@ -140,6 +144,21 @@ def csv_sequences(ctx):
         ctx.nontriv(('csvseq', json.dumps([(q['q'], q['A'], q['B']) for q in c['runs']])))
 
 
+def rel_results(c, e, g):
+    if not isinstance(g, dict) or 'results' not in g or len(g['results']) != len(e['results']):
+        return False
+    for x, y, q in zip(e['results'], g['results'], c['queries']):
+        if y is None or ec.strip_header(x['events']) != ec.strip_header(y['events']) or x['error'] != y['error'] or x['pulls'] != y['pulls']:
+            return False
+        if 'exp_header' in q and x['error'] is None:
+            # the output header of a query with column names is part of its result too (its derivation belongs to C07; here: that it
+            # is the header of THIS query, whatever ran before or runs beside it)
+            hev = [ev for ev in y['events'] if ev[0] == 'H']
+            if not hev or hev[0][1] != q['exp_header']:
+                return False
+    return True
+
+
 def nsteps(o):
     return o['pulls'] + 1 + len(o['events']) + 4
 
@@ -185,14 +204,7 @@ def run(ctx):
     send = [{k: v for k, v in c.items() if k != '_solo'} for c in cases]
     got = lib.run_impl_py('c16', send, timeout=3000)
 
-    def rel(c, e, g):
-        if not isinstance(g, dict) or 'results' not in g or len(g['results']) != len(e['results']):
-            return False
-        for x, y in zip(e['results'], g['results']):
-            if y is None or ec.strip_header(x['events']) != ec.strip_header(y['events']) or x['error'] != y['error'] or x['pulls'] != y['pulls']:     # header: C07
-                return False
-        return True
-    ctx.compare(send, exp, got, THEOREM, rel=rel,
+    ctx.compare(send, exp, got, THEOREM, rel=rel_results,
                 describe=lambda c, e, g: '%s of %s (schedule %s): solo model results %s, implementation %s' % (
                     c['mode'], [q['q'] for q in c['queries']], c.get('schedule'), json.dumps(e)[:300], json.dumps(g)[:400]),
                 corrupt=lambda e: {'results': e['results'] + [None]})
@@ -220,5 +232,4 @@ def replay(ctx, case):
     _a, _m, so = solo(case['queries'])
     got = lib.run_impl_py('c16', [case], shards=1)
     ctx.count()
-    ok = isinstance(got[0], dict) and all(y is not None and ec.strip_header(x['events']) == ec.strip_header(y['events']) and x['error'] == y['error'] and x['pulls'] == y['pulls'] for x, y in zip(so, got[0].get('results', [])))
-    ctx.compare([case], [{'results': so}], got, THEOREM, rel=lambda c, e, g: ok)
+    ctx.compare([case], [{'results': so}], got, THEOREM, rel=rel_results)
